@@ -493,7 +493,7 @@ func init() {
 	register(&Property{
 		ID:        "C13",
 		Scenarios: c13Scenarios,
-		Custom:    c13Scaling,
+		Custom:    func(r *core.Run, tier string) { c13CLIInputs(r, tier); c13Scaling(r, tier) },
 		Assumptions: []string{
 			"a crash is: a Go panic recovered by the worker around gen.Parse/frontend.Exec, a worker process that dies (re-run through the real CLI: exit status 2 with panic:/fatal error:), or no answer within the per-input limit; exits through os.Exit with a GOSK message are normal terminations",
 			"'at most polynomially' is checked as a growth envelope t(10n) <= 200*max(t(n),50ms) up to 10^4 (thorough 10^5) tokens; wall-clock noise is far below the 200x allowance",
